@@ -213,13 +213,19 @@ class FakeGit(real_git.Repository):
             if not self.is_ancestor(a, b):
                 raise CommandError('exit status 1')
             return ''
-        if sub == 'merge' and rest and rest[0] == '--no-edit' \
-                and len(rest) >= 2 and self.head is not None \
-                and not any(r.startswith('-') for r in rest[1:]):
-            tip = self.local[self.head]
-            new = self.model_merge(tip, *[self._resolve(r) for r in rest[1:]])
-            self.local[self.head] = new
-            return 'merged\n'
+        if sub == 'merge' and self.head is not None:
+            # `git merge [--no-edit] [--ff-only] <commit>...`
+            flags = [r for r in rest if r.startswith('-')]
+            names = [r for r in rest if not r.startswith('-')]
+            if names and set(flags) <= {'--no-edit', '--ff-only', '--ff'}:
+                tip = self.local[self.head]
+                srcs = [self._resolve(r) for r in names]
+                new = self.model_merge(tip, *srcs)
+                if '--ff-only' in flags and new != tip and new not in srcs:
+                    raise CommandError('fatal: Not possible to fast-forward, '
+                                       'aborting.')
+                self.local[self.head] = new
+                return 'merged\n'
         return self._unknown(command)
 
 
